@@ -25,6 +25,8 @@ RULE = ("small MILPs with integer data in -5..9, 2-5 variables (6 thorough), eve
         "solution_limit 2/5, small max_nodes); non-trivial = the default run explored >= 2 nodes; "
         "distinct by canonical (c, A, b, integers, minimize)")
 
+MISSING = ['binary_tightening_sound [S]', 'Lp.Bnb step-by-step mirror of the best-first loop [S] (the abstract loop is proved: bnb_invariant/bnb_optimal/bnb_infeasible/bnb_gap)']
+
 EPS = 1e-6
 GAP_TOL = 1e-6
 TOL_OBJ = 1e-7
@@ -331,6 +333,7 @@ def run_cases(ctx, cases):
 
 def run(ctx, budget):
     ctx.cov["rule"] = RULE
+    ctx.cov["missing_theorems"] = MISSING
     cases = list(edge_cases()) + [c["case"] for c in core.load_corpus("C04")]
     n = 500 * budget
     for i in range(n):
